@@ -344,6 +344,44 @@ TERMINATION_TABLE = (
 )
 
 
+FACTORIAL_ROWS = (0, 1, 2, 3, 4, 5, 6, 7, 8, 9, 10, 11, 12, 19, 20, 21, 25, 30, 31, 32, 33, 40, 170, 171)
+
+
+def _factorial_table(model, res):
+    """R7 (constant rows): FACT(n) and FACTDOUBLE(n) are the exact integers n! and n!! - also beyond 2**53, where a float stops being
+    exact, and beyond 170!, where one stops being finite.  Only pure integer operations on constants are folded."""
+    import math
+    n_ok = 0
+    for name in ('FACT', 'FACTDOUBLE'):
+        m, f = model.registered(name)
+        for n in FACTORIAL_ROWS:
+            want = math.factorial(n)
+            if name == 'FACTDOUBLE':
+                want = 1
+                for i in range(n, 1, -2):
+                    want *= i
+            try:
+                outs = H.run_function(model, H.registry_func(model, name), lambda n=n: [Const(n)])
+            except Unmodelled as e:
+                res.ob('R7', name, {'n': n}, True, 'undecided: %s' % e)
+                continue
+            if len(outs) != 1 or outs[0].imprecise:
+                res.ob('R7', name, {'n': n}, True, 'undecided: %d outcomes' % len(outs))
+                continue
+            o = outs[0]
+            if o.kind == 'return' and not isinstance(o.value, Const):
+                res.ob('R7', name, {'n': n}, True, 'undecided: %r' % (o.value,))
+                continue
+            n_ok += 1
+            ok = o.kind == 'return' and isinstance(o.value.value, int) and not isinstance(o.value.value, bool) and o.value.value == want
+            res.ob('R7', name, {'n': n, 'result': repr(o.value)[:60]}, ok)
+            if not ok:
+                res.violation('R7', 'function:%s:value-table' % name, m.where(f),
+                              '%s(%d) gives %s; it is the exact integer %d' % (name, n, ('%r' % (o.value,))[:80] if o.kind == 'return' else
+                                                                                 'an exception (%r)' % (o.value,), want), func=f.name)
+    res.soft_floor('factorial rows decided', n_ok, 30)
+
+
 def _termination_table(model, res):
     """R1 (constant runs): the interpreter follows the function on constants that stress its loops (fractions that never reach an
     integer loop end, zero, the largest inputs); a `while` whose complete state repeats without an undetermined choice never ends."""
@@ -646,6 +684,7 @@ def _r7(model, res, E):
         res.ob('R7', 'QUOTIENT', {'result': repr(v)}, ok)
         if not ok:
             res.violation('R7', 'function:QUOTIENT:truncation', m.where(f), 'QUOTIENT must be int(number / divisor) (truncation); got %r' % (v,), func=f.name)
+    _factorial_table(model, res)
     m, f = model.registered('FACT')
     outs = H.run_function(model, H.registry_func(model, 'FACT'), lambda: [Sym('int', 'n')])
     for o in outs:
